@@ -14,7 +14,7 @@ PROPERTY = "C20"
 FUNCTIONS = ["ibldsp.smooth.non_uniform_savgol", "ibldsp.spiketrains._spikes_venn", "spikes_venn2", "spikes_venn3", "iblutil.numerical.bincount2D (executed symbolically)", "ibldsp.voltage.stack", "ibldsp.smooth.rolling_window"]
 ASSUMPTIONS = [
     "Venn counting: 2-3 sorters with up to 2 spikes each, sorted sample times and channels symbolic on a tiny grid (samples_binsize=2, chunk_size 4 or 6, channels_binsize=2, 4 channels); tqdm/print are side effects",
-    "stack: labels symbolic in {0,1,2} on up to 4 traces (np.unique forks), one sample per trace, aggregation by sum / mean",
+    "stack: labels symbolic in {0,1,2} on up to 4 traces (np.unique forks), one sample per trace, aggregation by sum / mean and the default np.nanmean with a symbolic missing-sample (NaN) flag per trace",
     "non_uniform_savgol: three fixed abscissa patterns (uniform, irregular, clustered), polynomial coefficients symbolic: the output is a linear term in them and each error coefficient must vanish up to 1e-4 relative (the matrix inverse is the real NumPy one on concrete numbers)",
     "rolling_window: concrete length n <= 9 with symbolic values, window lengths 3..8 (odd and even), all five window kinds; window weights are the doubles NumPy computes (a constant is returned within 1e-12 relative)",
 ]
@@ -107,6 +107,34 @@ def case_stack(ctx, ntr, agg):
         ctx.oblige("fold_is_the_member_count", int(fold[r]) == len(members), detail={"label": g})
 
 
+def case_stack_nan(ctx, ntr):
+    """default aggregation (np.nanmean): missing samples (NaN) are skipped, a label whose samples are all missing gives NaN"""
+    import ibldsp.voltage as v
+    labels = [ctx.int(f"w{i}", 0, 2) for i in range(ntr)]
+    vals = [ctx.real(f"d{i}") for i in range(ntr)]
+    miss = [ctx.bool(f"m{i}") for i in range(ntr)]
+    data = [core.SReal(vals[i].t, nan=miss[i].t) for i in range(ntr)]
+    res = ctx.call("stack", v.stack, arrays.mk(list(data), shape=(ntr, 1), tag=np.dtype(float)), arrays.mk(list(labels), tag=np.dtype(np.int64)))
+    stk, fold = res
+    lv = [int(ctx.concretize(core._it(l))) if isinstance(l, core.Sym) else int(l) for l in labels]
+    groups = sorted(set(lv))
+    if not ctx.oblige("one_row_per_distinct_label", tuple(stk.shape) == (len(groups), 1) and len(fold) == len(groups), detail={"shape": str(stk.shape), "labels": lv}):
+        return
+    for r, g in enumerate(groups):
+        members = [i for i in range(ntr) if lv[i] == g]
+        tot, cnt = 0, 0
+        for i in members:
+            tot = tot + core.ite(miss[i], 0.0, vals[i])
+            cnt = cnt + core.ite(miss[i], 0, 1)
+        got = stk[r, 0]
+        gnan = arrays.s_isnan(got)
+        allmiss = core.all_([miss[i] for i in members])
+        ctx.oblige("row_is_missing_exactly_when_all_its_samples_are", core.eq(gnan if isinstance(gnan, core.Sym) else bool(gnan), allmiss), detail={"label": g, "members": members})
+        gv = core.SReal(got.t) if isinstance(got, core.SReal) else got
+        ctx.oblige("row_is_the_mean_of_its_present_samples", core.or_(allmiss, core.eq(gv * cnt, tot)), detail={"label": g, "members": members})
+        ctx.oblige("fold_is_the_member_count", int(fold[r]) == len(members), detail={"label": g})
+
+
 def case_rolling(ctx, n, wl, window):
     import ibldsp.smooth as sm
     xs = [ctx.real(f"x{i}", -100, 100) for i in range(n)]
@@ -173,6 +201,7 @@ def cases(tier):
         cs.append(Case("venn3_chunk4", "case_venn", {"nsorters": 3, "nsp": [2, 1, 1], "chunk_a": 4, "chunk_b": 4}, timeout_s=3500, max_paths=500000))
     for agg in ("sum", "mean"):
         cs.append(Case(f"stack_{agg}", "case_stack", {"ntr": b["stack_ntr"], "agg": agg}))
+    cs.append(Case("stack_nanmean_default", "case_stack_nan", {"ntr": b["stack_ntr"]}))
     for window in ("flat", "hanning", "hamming", "bartlett", "blackman"):
         for wl in (3, 4, 5) if tier == "quick" else (3, 4, 5, 6, 7, 8):
             cs.append(Case(f"rolling_{window}_{wl}", "case_rolling", {"n": 7 if tier == "quick" else 9, "wl": wl, "window": window}))
@@ -186,7 +215,7 @@ def twins(tier):
         Twin("venn_strict", "ibldsp.spiketrains", "venn_info = bin_counts[:, ind] >= (max_per_spike - i)[ind]", "venn_info = bin_counts[:, ind] > (max_per_spike - i)[ind]", vn),
         Twin("venn_one_chunk_short", "ibldsp.spiketrains", "num_chunks = int((max_samples // chunk_size) + 1)", "num_chunks = int(max_samples // chunk_size) or 1", vn),
         Twin("venn_chunk_edge", "ibldsp.spiketrains", "*np.searchsorted(samples, [sample_offset, sample_offset + chunk_size])", "*np.searchsorted(samples, [sample_offset + 1, sample_offset + chunk_size])", vn),
-        Twin("stack_wrong_vector", "ibldsp.voltage", "        i2stack = sind == uinds", "        i2stack = sind == word", ["stack_sum", "stack_mean"]),
+        Twin("stack_wrong_vector", "ibldsp.voltage", "        i2stack = sind == uinds", "        i2stack = sind == word", ["stack_sum", "stack_mean", "stack_nanmean_default"]),
         Twin("savgol_border_origin", "ibldsp.smooth", "            x_i *= x[i] - x[half_window]\n", "            x_i *= x[i] - x[half_window - 1]\n", ["savgol_irregular_w5_o2", "savgol_clustered_w5_o2"]),
         Twin("savgol_window_offset", "ibldsp.smooth", "            t[j] = x[i + j - half_window] - x[i]", "            t[j] = x[i + j - half_window] - x[i - 1]", ["savgol_irregular_w5_o2"]),
         Twin("rolling_sign", "ibldsp.smooth", "return y[round((window_len / 2 - 1)): round(-(window_len / 2))]", "return y[round((window_len / 2 - 1)): round(-(window_len / 2)) - 1]", ["rolling_flat_3", "rolling_hanning_5"]),
@@ -217,6 +246,21 @@ for chunk in ({params['chunk_a']}, {params['chunk_b']}):
         if tot != len(S[k]): bad.append(('sorter', k, 'region sum', int(tot), 'spikes', len(S[k]), 'chunk', chunk, dict(r)))
 print(S, C, bad)
 if bad: reproduced(str(bad)[:700])
+not_reproduced()
+"""
+    if case.startswith("stack_nanmean"):
+        n = params["ntr"]
+        lab = [m[f"w{i}"] for i in range(n)]
+        d = ["float('nan')" if m.get(f"m{i}") else repr(float(Fraction(str(m[f"d{i}"])))) for i in range(n)]
+        return f"""
+import warnings; warnings.simplefilter('ignore')
+import ibldsp.voltage as v
+lab = np.array({lab}); d = np.array([{', '.join(d)}])[:, None]
+stk, fold = v.stack(d.copy(), lab)
+g = np.unique(lab)
+exp = np.array([[np.nanmean(d[lab == k])] for k in g]); ef = np.array([np.sum(lab == k) for k in g])
+print(stk, fold, exp, ef)
+if stk.shape != exp.shape or not np.allclose(stk, exp, equal_nan=True) or not np.array_equal(fold, ef): reproduced('default stack differs from the per-label nanmean')
 not_reproduced()
 """
     if case.startswith("stack"):
